@@ -5,7 +5,7 @@ SITES = {1: 'MT_MatrixDVectorDotProduct', 2: 'MT_DVectorMatrixDotProduct', 3: 'C
          6: 'ManhattanDistanceCondensed', 7: 'CosineDistanceCondensed', 8: 'getLabels_'}
 META = dict(
     functions=list(SITES.values()) + ['MatrixDVectorDotProductWorker', 'DVectorMatrixDotProductWorker', 'CalcWorker', 'CalcCondensedWorker', 'getLabelsWorker', 'square_to_condensed_index', 'GetNProcessor'],
-    bounds='slicing: rows 0..40 and threads 1..24 BOTH symbolic per query (quick: rows<=16, threads<=8 plus the full range for the matrix-vector kernels); values: rows<=4, cols<=2, threads 1..6 concrete, contents symbolic bit-precise; index map n<=40 symbolic',
+    bounds='slicing: rows 0..40 and threads 1..24 BOTH symbolic per query (both tiers); values: rows<=4, cols<=2, threads 1..6 concrete, contents symbolic bit-precise; index map n<=40 symbolic',
     outside='the OS scheduler / libpthread / weak memory (interleavings are checked for 2 workers under sequential consistency only), triangle inequality (a theorem about norms, not code), MDCWorker and kmppDistanceWorker slicing (inside selection algorithms, see C17)',
     stubs=['pthread_create/join: recording model, workers synchronous', 'GetNProcessor through the guarded lsci_verif_nproc hook', 'sqrt: uninterpreted function (bit-exact equality needs determinism only)'],
     assumptions=['worker-argument struct layouts are re-extracted from the current source on every run'],
@@ -16,8 +16,7 @@ def obligations(tier):
     obs = []
     th = tier == 'thorough'
     for site, nm in SITES.items():
-        grids = [(16, 8)] if not th else [(40, 24)]
-        if site in (1, 2) and not th: grids = [(40, 24)]
+        grids = [(40, 24)]      # the full range in both tiers (a seeded change needed more than 16 threads; the whole family costs under two minutes)
         for (mr, mt) in grids:
             obs.append(Ob(id=f'slices/{nm}/rows{mr}xthreads{mt}', harness='C13/slices.c', tus=T, defs={'HP_SITE': site, 'HP_MAXR': mr, 'HP_MAXT': mt}, engine='bits',
                           unwind=max(mr, mt) + 2, timeout=300 if not th else 1800, clause='every row is processed by exactly one worker', stubs=('pthread_rec.c',), object_bits=10,
